@@ -259,13 +259,21 @@ type SexpArray struct {
 	Infix               bool
 
 	Env *Zlisp
+
+	typing bool // Type() of this array is being computed
 }
 
 func (r *SexpArray) Type() *RegisteredType {
 	if r.Typ == nil {
 		if len(r.Val) > 0 {
-			// take type from first element
+			// take type from first element; an array whose first
+			// element is (or leads back to) itself has no element type.
+			if r.typing {
+				return nil
+			}
+			r.typing = true
 			ty := r.Val[0].Type()
+			r.typing = false
 			if ty != nil {
 				r.Typ = GoStructRegistry.GetOrCreateSliceType(ty)
 			}
